@@ -150,6 +150,11 @@ def judge_file(r, path, rows, props, res, maxviol=8):
                 "asks": begin["asks"], "root": begin["root"], "c06": begin.get("c06", False),
                 "key": case_key(begin), "grammar": gtext(begin["G"]), "input": wtext(begin["w"]),
                 "rejected_event": rows[k0], "props": props}
+        # the case that ran just before on the same parser graph (state left behind by an earlier parse)
+        idx = spans.index((b, e))
+        if idx > 0 and rows[spans[idx - 1][0]].get("G") == begin["G"]:
+            pb = rows[spans[idx - 1][0]]
+            case["prev"] = {"G": pb["G"], "w": pb["w"], "B": pb["B"], "adm": pb["adm"], "asks": pb["asks"]}
         if rows[k0].get("ev") == "mutation":
             case["mutation"] = {"n": rows[k0].get("n"), "pos": rows[k0].get("pos"), "at_return": rows[k0].get("at_return"), "now": rows[k0].get("now")}
             case["key"] = case["key"] + "-m"
@@ -254,7 +259,10 @@ def replay_cases(r, cases, tag, props, watch=False, budget=4000, validate=True, 
             case = {"kind": "parsecase", "G": c["G"], "w": c["w"], "B": c["B"], "adm": c["adm"],
                     "asks": [[a["n"], a["p"]] for a in c["asks"]], "root": c["asks"][0]["n"], "key": case_key(c),
                     "grammar": gtext(c["G"]), "input": wtext(c["w"]), "props": props,
-                    "detail": {k: v[k] for k in v if k != "case"}}
+                    "detail": {k: v[k] for k in v if k not in ("case", "prev")}}
+            if v.get("prev"):
+                pc = v["prev"]
+                case["prev"] = {"G": pc["G"], "w": pc["w"], "B": pc["B"], "adm": pc["adm"], "asks": [[a["n"], a["p"]] for a in pc["asks"]]}
             if r.violation(case, "%s: %s on grammar [%s] input %r" % (
                     v["prop"], json.dumps({k: v[k] for k in v if k not in ("case", "prop")})[:300], gtext(c["G"]), wtext(c["w"]))):
                 tot["violations"] += 1
@@ -294,10 +302,13 @@ def random_traces(r, n, props, chunks=None, **opts):
 
 def replay_one(r, case, props):
     """--replay: run one recorded case on the current tree and judge it"""
-    c = {"G": case["G"], "w": case["w"], "B": case["B"], "adm": case.get("adm", True),
-         "asks": [{"n": a[0], "p": a[1], "res": [], "err": [], "calls": 0, "cerr": [], "ends": []} for a in case["asks"]]}
+    def mk(x):
+        return {"G": x["G"], "w": x["w"], "B": x["B"], "adm": x.get("adm", True),
+                "asks": [{"n": a[0], "p": a[1], "res": [], "err": [], "calls": 0, "cerr": [], "ends": []} for a in x["asks"]]}
+    # the case that ran just before on the same parser graph is replayed first (state left behind in the graph)
+    seq = ([mk(case["prev"])] if case.get("prev") else []) + [mk(case)]
     inp = r.path("one.ndjson")
-    core.write_ndjson(inp, [c])
+    core.write_ndjson(inp, seq)
     tr = r.path("one-trace.ndjson")
     r.pvh("parse", "replay", **{"in": inp, "out": r.path("one.json"), "trace": tr, "watch": 1})
     rep = json.load(open(r.path("one.json")))
